@@ -116,8 +116,13 @@ class SetupCfgWriter(DependencyWriter):
             new_deps = [
                 f"{formatting}{dep.requirement}{newline}" for dep in dependencies_to_add
             ]
+            last_dep = original_lines[last_dep_idx]
+            if not last_dep.endswith("\n"):
+                # last line of a file without a final newline
+                last_dep += newline
             new_lines = (
-                original_lines[: last_dep_idx + 1]
+                original_lines[:last_dep_idx]
+                + [last_dep]
                 + new_deps
                 + original_lines[last_dep_idx + 1 :]
             )
